@@ -8,7 +8,10 @@ import (
 	"github.com/yorkie-team/yorkie/api/types"
 	"github.com/yorkie-team/yorkie/pkg/document"
 	"github.com/yorkie-team/yorkie/pkg/document/change"
+	"github.com/yorkie-team/yorkie/pkg/document/crdt"
+	"github.com/yorkie-team/yorkie/pkg/document/json"
 	"github.com/yorkie-team/yorkie/pkg/document/presence"
+	"github.com/yorkie-team/yorkie/pkg/document/yson"
 	"github.com/yorkie-team/yorkie/pkg/document/time"
 	"github.com/yorkie-team/yorkie/server/backend/database"
 	"github.com/yorkie-team/yorkie/server/packs"
@@ -217,6 +220,76 @@ func (w *World) RepState(c *Cli, d string) map[string]any {
 		"pres":    w.PresString(doc.AllPresences()),
 		"undo":    doc.CanUndo(),
 		"redo":    doc.CanRedo(),
+		"undon":   doc.UndoStackLenForTest(),
+		"ncontent": NormContent(doc),
 		"sess":    r.Sess,
 	}
+}
+
+
+// NormContent is the content as characters / XML rather than internal chunking
+// (C14 compares undo results this way): text nodes are concatenated.
+func NormContent(doc *document.Document) string {
+	obj := doc.RootObject()
+	keys := []string{}
+	for k := range obj.Members() {
+		keys = append(keys, k)
+	}
+	sort.Strings(keys)
+	var sb strings.Builder
+	for _, k := range keys {
+		sb.WriteString(k + "=")
+		switch e := obj.Get(k).(type) {
+		case *crdt.Text:
+			sb.WriteString("text:" + e.String())
+		case *crdt.Tree:
+			sb.WriteString(e.ToXML())
+		default:
+			sb.WriteString(e.Marshal())
+		}
+		sb.WriteString(";")
+	}
+	return sb.String()
+}
+
+// YsonRoundTrip exports the document to YSON, parses the text back, imports it
+// into an empty document and exports again (what packs.Compact relies on).
+func YsonRoundTrip(root *crdt.Object) (ok bool, before, after, errs string) {
+	defer func() {
+		if p := recover(); p != nil {
+			ok, errs = false, fmt.Sprintf("PANIC:%v", p)
+		}
+	}()
+	y, err := yson.FromCRDT(root)
+	if err != nil {
+		return false, "", "", err.Error()
+	}
+	yo, isObj := y.(yson.Object)
+	if !isObj {
+		return false, "", "", "root is not a yson object"
+	}
+	before, err = yo.Marshal()
+	if err != nil {
+		return false, "", "", err.Error()
+	}
+	var parsed yson.Object
+	if err := yson.Unmarshal(before, &parsed); err != nil {
+		return false, before, "", "unmarshal: " + err.Error()
+	}
+	nd := document.New("yson-roundtrip")
+	if err := nd.Update(func(r *json.Object, p *presence.Presence) error {
+		r.SetYSON(parsed)
+		return nil
+	}); err != nil {
+		return false, before, "", "setyson: " + err.Error()
+	}
+	y2, err := yson.FromCRDT(nd.RootObject())
+	if err != nil {
+		return false, before, "", err.Error()
+	}
+	after, err = y2.(yson.Object).Marshal()
+	if err != nil {
+		return false, before, "", err.Error()
+	}
+	return true, before, after, ""
 }
